@@ -636,7 +636,17 @@ impl ChanSendDatum {
     pub fn send(&mut self, d: ChanDatum) -> (r: core::result::Result<(), Error>)
         ensures final(self).log() == old(self).log().push(d)
     { unimplemented!() }
+    // the channel's other send methods give up instead of blocking: the datum is then NOT delivered (assumed: crossbeam's semantics)
+    #[verifier::external_body]
+    pub fn send_timeout<T>(&mut self, d: ChanDatum, timeout: T) -> (r: core::result::Result<(), Error>)
+        ensures r is Ok ==> final(self).log() == old(self).log().push(d), r is Err ==> final(self).log() == old(self).log()
+    { unimplemented!() }
+    #[verifier::external_body]
+    pub fn try_send(&mut self, d: ChanDatum) -> (r: core::result::Result<(), Error>)
+        ensures r is Ok ==> final(self).log() == old(self).log().push(d), r is Err ==> final(self).log() == old(self).log()
+    { unimplemented!() }
 }
+//@opaque_consts_here
 pub open spec fn open_ok(l: Seq<ChanDatum>) -> bool {
     l.len() >= 1 && l[0] is FileInfo && forall|i: int| 0 < i < l.len() ==> #[trigger] l[i] is NewMessage
 }
